@@ -99,6 +99,17 @@ def inBBox (rs : Poly) (c : P) (scale : Rat × Rat) : Bool :=
     let ty := eps * scale.2
     decide (x0 - tx ≤ c.x) && decide (c.x ≤ x1 + tx) && decide (y0 - ty ≤ c.y) && decide (c.y ≤ y1 + ty)
 
+/-- `-offset:far` when the polygon lies further from the origin than 2^12 times its own extent: the
+centroid formula cancels catastrophically there (relative error ≈ 2^-53 · (offset/extent)²); known
+finding, see notes/C03.md "Finding 9" -/
+def offTag (p : Poly) : String :=
+  match bbox p with
+  | none => ""
+  | some (x0, x1, y0, y1) =>
+    let ext := max (x1 - x0) (y1 - y0)
+    let m := max (maxAbsX p) (maxAbsY p)
+    if 0 < ext && m ≥ ext * (2:Rat)^12 then "-offset:far" else ""
+
 /-- parse `ok hx hy` / `panic …` / `err` -/
 inductive PRes where
   | pt (x y : FVal) | panic | err | bad
@@ -207,7 +218,7 @@ def judgeCent (tag : String) (p : Poly) (rhs : Tok) : String :=
   let c := reorder (shellAt order) (Spec.canon p)
   let closed := p.all isClosedRing
   let inStatement := valid && closed
-  let cls := s!"cent-{tag}-{match order with | some (_, true) => "valid-touch" | some _ => "valid" | none => "invalid"}-{polyTag p}{magTag p}"
+  let cls := s!"cent-{tag}-{match order with | some (_, true) => "valid-touch" | some _ => "valid" | none => "invalid"}-{polyTag p}{magTag p}{offTag p}"
   let r1 := pRes (rhs.takeWhile (· ≠ "|"))
   let r2 := pRes (rhs.drop ((rhs.takeWhile (· ≠ "|")).length + 1))
   let scale := (maxAbsX p, maxAbsY p)
@@ -234,7 +245,7 @@ def judgeMCent (tag : String) (mp : MPoly) (rhs : Tok) : String :=
   let touch := orders.any fun o => match o with | some (_, true) => true | _ => false
   let closed := mp.all (·.all isClosedRing)
   let inStatement := valid && closed
-  let cls := s!"mcent-{tag}-{if valid then (if touch then "valid-touch" else "valid") else "invalid"}-{mpolyTag mp}{magTag mp.flatten}"
+  let cls := s!"mcent-{tag}-{if valid then (if touch then "valid-touch" else "valid") else "invalid"}-{mpolyTag mp}{magTag mp.flatten}{offTag mp.flatten}"
   let r := pRes rhs
   let scale := (maxAbsX mp.flatten, maxAbsY mp.flatten)
   let m : Except Fault (FQ × FQ) := .ok (multiPolygonCentroid mp)
